@@ -113,6 +113,11 @@ func (ex *Exec) callFn(st *State, fr *Frame, x *ssa.Call, fn *ssa.Function, bind
 			return false
 		}
 	}
+	if c == nil && fn.Blocks != nil && strings.HasPrefix(fn.Synthetic, "bound method wrapper") && fr.Depth <= 8 {
+		// x.M as a function value: the compiler-made wrapper only calls M on the bound receiver; executed in place
+		ex.pushFrame(st, fn, bind, args, x, fr.Depth+1)
+		return false
+	}
 	if c == nil {
 		ex.reject("call to %s without contract (in %s)", key, fr.Fn)
 	}
